@@ -1,11 +1,13 @@
 //! C19 - DNS answers are only taken from matching responses; queries terminate.
 //!
-//! One `dns::Socket` behind an interface on Medium::Ip, 0-3 configured servers,
-//! 1-3 queries (A/AAAA, unicast DNS and `.local` mDNS) and a scripted resolver
-//! that answers each query datagram seen on the wire - late, never, or with a
-//! response in which the attributes the socket has to match are drawn right or
-//! wrong. All packets are built and judged with the independent codecs in
-//! `vkit::indep` (IP/UDP) and `c19_dns.rs` (DNS, written from RFC 1035).
+//! One `dns::Socket` behind an interface on Medium::Ip (3/4 of the cases) or
+//! Medium::Ethernet (scripted neighbours that answer ARP / neighbour
+//! solicitations at once, late or never), 0-3 configured servers, 1-3 queries
+//! (A/AAAA, unicast DNS and `.local` mDNS) and a scripted resolver that answers
+//! each query datagram seen on the wire - late, never, or with a response in
+//! which the attributes the socket has to match are drawn right or wrong. All
+//! packets are built and judged with the independent codecs in `vkit::indep`
+//! (Ethernet/ARP/NDISC/IP/UDP) and `c19_dns.rs` (DNS, written from RFC 1035).
 //!
 //! Oracle (see DESIGN.md C19):
 //!  (a) `get_query_result` = Ok(addresses) needs one datagram, delivered while
@@ -13,13 +15,22 @@
 //!      or from the mDNS port, goes to the query's source port, carries its
 //!      transaction id and repeats its question name and type, and the
 //!      addresses must be a non-empty subset of what the reference resolver
-//!      takes from that datagram;
+//!      takes from that datagram            -> answer-from-nonmatching-response:<attr>,
+//!                                             completed-ok-without-addresses
 //!  (b) every query is Ok/Failed within 20 s x servers + 1 s of virtual time
-//!      when the interface is polled at `poll_at` (and on datagram arrival);
-//!      retransmissions repeat the question, back off and change server only
-//!      after 10 s;
+//!      when the interface is polled at `poll_at` (and on datagram arrival)
+//!                                          -> query-never-completes,
+//!                                             query-blocked-behind-other-queries,
+//!                                             pending-query-no-deadline,
+//!                                             poll_at-does-not-advance
+//!      retransmissions repeat the question -> retransmit-question-changed:<what>
+//!      and (Medium::Ip, distinct servers) back off and change server only
+//!      after 10 s                          -> retransmit-without-back-off,
+//!                                             failover-before-timeout
 //!  (c) no panic (runner), no hang (wall-clock watchdog around every call into
-//!      smoltcp).
+//!      smoltcp)                            -> hang
+//!
+//! Development knob: VERIF_C19_PAST=all|<key prefixes> (see `report`).
 
 use smoltcp::iface::SocketHandle;
 use smoltcp::socket::dns::{self, GetQueryResultError, MulticastDns, QueryHandle};
@@ -138,12 +149,15 @@ fn watched<T>(src: &Src, what: &'static str, f: impl FnOnce() -> T) -> Result<T,
     Ok(r)
 }
 
-/// `ctx.report`, plus a development knob: with VERIF_C19_PAST=1 every violation is
-/// only labelled ("violation:<key>") and the case goes on, which shows what the
-/// generator reaches behind findings that are not (yet) registered as known.
+/// `ctx.report`, plus a development knob: with VERIF_C19_PAST=all (or a comma
+/// separated list of key prefixes) those violations are only labelled
+/// ("violation:<key>") and the case goes on, which shows what the generator
+/// reaches behind findings that are not (yet) registered as known. Ignored in
+/// replay (strict) mode.
 fn report(ctx: &mut Ctx, f: Fail) -> Result<(), Fail> {
-    static PAST: std::sync::OnceLock<bool> = std::sync::OnceLock::new();
-    if *PAST.get_or_init(|| std::env::var("VERIF_C19_PAST").is_ok()) && !ctx.strict {
+    static PAST: std::sync::OnceLock<Vec<String>> = std::sync::OnceLock::new();
+    let past = PAST.get_or_init(|| std::env::var("VERIF_C19_PAST").map(|v| v.split(',').map(|s| s.to_string()).collect()).unwrap_or_default());
+    if !ctx.strict && past.iter().any(|p| p == "all" || p == "1" || f.key.starts_with(p.as_str())) {
         ctx.label(&format!("violation:{}", f.key));
         return Ok(());
     }
@@ -168,6 +182,9 @@ struct Query {
     ident: Option<(u16, u16)>,
     nsrv: usize,
     deadline_us: i64,
+    /// bound that also allows for waiting behind every other query of the case (see `blocked_reported`)
+    hard_deadline_us: i64,
+    blocked_reported: bool,
     done: bool,
     tx: Vec<Tx>,
     /// CNAME targets used in responses built for this query
@@ -187,8 +204,8 @@ struct Datagram {
     dport: u16,
     payload: Vec<u8>,
     what: String,
-    /// the builder wrote at least one compression pointer
-    has_ptr: bool,
+    /// pointer / odd name encodings the builder wrote ("ptr:backward", ...)
+    kinds: Vec<&'static str>,
 }
 
 struct Event {
@@ -211,6 +228,31 @@ struct World {
     addr_counter: u32,
     near_miss: bool,
     rich_answer: bool,
+    /// Medium::Ethernet: the node's MAC address
+    eth: Option<[u8; 6]>,
+    /// 0 neighbours answer ARP/NS at once, 1 never, 2 late
+    link_mood: usize,
+    /// link-layer frames (ARP replies, neighbour advertisements) in flight
+    l2_events: Vec<(i64, Vec<u8>, String)>,
+}
+
+fn mac_of(ip: &Ip) -> [u8; 6] {
+    match ip {
+        Ip::V4(a) => [0x02, 0x04, a[0], a[1], a[2], a[3]],
+        Ip::V6(a) => [0x02, 0x06, a[0], a[1], a[14], a[15]],
+    }
+}
+
+fn on_link(ip: &Ip) -> bool {
+    match ip {
+        Ip::V4(a) => a[0..3] == [10, 0, 0],
+        Ip::V6(a) => (a[0] == 0xfd && a[1] == 0 && a[2..8] == [0; 6]) || (a[0] == 0xfe && a[1] == 0x80),
+    }
+}
+
+const GW4: Ip = Ip::V4([10, 0, 0, 254]);
+fn gw6() -> Ip {
+    Ip::v6([0xfd00, 0, 0, 0, 0, 0, 0, 0xfe])
 }
 
 const MDNS4: Ip = Ip::V4([224, 0, 0, 251]);
@@ -443,7 +485,26 @@ fn check_answer(w: &World, qi: usize, addrs: &[Ip], ctx: &mut Ctx) -> Result<(),
     let (sub, detail) = match &best {
         None => ("no-source".to_string(), "no datagram delivered while the query was pending holds these addresses".to_string()),
         Some((_, d, v)) => {
-            let sub = if v.hard.is_empty() { "record-owner".to_string() } else { v.hard.join("+") };
+            let mut sub = if v.hard.is_empty() { "record-owner".to_string() } else { v.hard.join("+") };
+            if v.hard == ["question-name"] {
+                // Signature of the pending-name rewrite (see findings): the accepted response asks
+                // for a name that an earlier response to this query (right addresses, port and id)
+                // gave as a CNAME target. Kept apart so that registering that finding as known does
+                // not also hide a missing question-name comparison.
+                let asked = v.msg.as_ref().and_then(|m| m.questions.first()).and_then(|qu| qu.name.clone().ok());
+                let earlier_target = asked.is_some()
+                    && window.iter().any(|e| {
+                        let ve = judge(&w.servers, q, e);
+                        let transport_ok = !ve.hard.iter().any(|h| matches!(*h, "src-addr" | "src-port" | "dst-port" | "txid" | "no-header"));
+                        transport_ok
+                            && ve.msg.as_ref().map_or(false, |m| {
+                                m.answers.iter().any(|r| r.rtype == T_CNAME && decode_name(&e.payload, r.rdata_off).map_or(false, |t| name_eq_ci(&t, asked.as_ref().unwrap())))
+                            })
+                    });
+                if earlier_target {
+                    sub = "question-name:earlier-cname-target".to_string();
+                }
+            }
             (
                 sub,
                 format!(
@@ -451,7 +512,7 @@ fn check_answer(w: &World, qi: usize, addrs: &[Ip], ctx: &mut Ctx) -> Result<(),
                     d.src,
                     d.sport,
                     d.dport,
-                    d.what,
+                    describe(&d.payload),
                     if v.hard.is_empty() { "nothing, but the records are not owned by the queried name or a name on its CNAME chain".to_string() } else { v.hard.join(", ") },
                     if q.wire_changed { format!("; the question on the wire had changed to {:?}", q.wire_name.as_ref().map(name_to_string)) } else { String::new() }
                 ),
@@ -517,11 +578,13 @@ fn gen_response(src: &mut Src, ctx: &mut Ctx, w: &mut World, qi: usize, node_add
         wrong.push(a);
     } else {
         let n = if mood == 0 { src.weighted(&[6, 3, 1]) } else { src.weighted(&[3, 6, 2]) };
-        while wrong.len() < n {
-            let a = src.weighted(&ATTR_W);
-            if !wrong.contains(&a) {
-                wrong.push(a);
+        for _ in 0..n {
+            // (a replayed tape that ran out yields 0 for ever: never loop on a draw)
+            let mut a = src.weighted(&ATTR_W);
+            while wrong.contains(&a) {
+                a = (a + 1) % ATTRS.len();
             }
+            wrong.push(a);
         }
     }
     let has = |a: &str| wrong.iter().any(|i| ATTRS[*i] == a);
@@ -595,7 +658,7 @@ fn gen_response(src: &mut Src, ctx: &mut Ctx, w: &mut World, qi: usize, node_add
         }
         ctx.label("resp:garbage-payload");
         let what = format!("{} garbage bytes", payload.len());
-        return Datagram { src: from, dst: node_addr, sport, dport, payload, what, has_ptr: false };
+        return Datagram { src: from, dst: node_addr, sport, dport, payload, what, kinds: vec![] };
     }
 
     // ---- header
@@ -629,6 +692,7 @@ fn gen_response(src: &mut Src, ctx: &mut Ctx, w: &mut World, qi: usize, node_add
     }
     let style = src.weighted(&[3, 3, 2, 2]);
     let mut q_name = base.clone();
+    let mut ans_base = base.clone();
     let mut q_enc = Enc::Plain;
     let mut q_type = qtype;
     let mut q_class = C_IN;
@@ -646,6 +710,12 @@ fn gen_response(src: &mut Src, ctx: &mut Ctx, w: &mut World, qi: usize, node_add
                 q_name = if !pool.is_empty() && src.chance(2, 3) { src.pick(&pool).clone() } else { gen_name(src, false) };
                 if name_eq_ci(&q_name, &base) {
                     q_name.insert(0, b"other".to_vec());
+                }
+                // half of these are honest responses to that *other* question (answers owned by
+                // the other name), half keep the answers for the query's own name
+                if src.bool() {
+                    ans_base = q_name.clone();
+                    ctx.label("resp:for-another-question-altogether");
                 }
             }
             1 => {
@@ -698,6 +768,7 @@ fn gen_response(src: &mut Src, ctx: &mut Ctx, w: &mut World, qi: usize, node_add
     let mut recs: Vec<Rec> = vec![];
     let fam_a = qtype == T_A;
     let plan = src.weighted(&[5, 5, 2, 1, 1]);
+    let base = ans_base;
     let mut chain_names: Vec<Name> = vec![base.clone()];
     let mk_addr = |w: &mut World, owner: &Name, enc: Enc, a_type: bool| -> Rec {
         if a_type {
@@ -902,7 +973,7 @@ fn gen_response(src: &mut Src, ctx: &mut Ctx, w: &mut World, qi: usize, node_add
     } else {
         String::new()
     };
-    Datagram { src: from, dst: node_addr, sport, dport, payload, what, has_ptr: kinds.iter().any(|k| k.starts_with("ptr:")) }
+    Datagram { src: from, dst: node_addr, sport, dport, payload, what, kinds: kinds.into_iter().collect() }
 }
 
 /// second question for the qdcount=2 variants: derived from the base name without draws
@@ -912,9 +983,17 @@ fn gen_name_fixed(base: &Name) -> Name {
     o
 }
 
-fn frame_of(d: &Datagram) -> Vec<u8> {
+fn frame_of(eth: Option<[u8; 6]>, d: &Datagram) -> Vec<u8> {
     let l4 = Udp::new(d.sport, d.dport, d.payload.clone()).encode(&d.src, &d.dst);
-    IpPkt::build(d.src, d.dst, PROTO_UDP, 64, l4).encode()
+    let ip = IpPkt::build(d.src, d.dst, PROTO_UDP, 64, l4).encode();
+    match eth {
+        None => ip,
+        Some(mac) => {
+            // off-link senders reach the node through the gateway
+            let hop = if on_link(&d.src) { d.src } else if d.src.is_v4() { GW4 } else { gw6() };
+            Eth { dst: mac, src: mac_of(&hop), ethertype: if d.src.is_v4() { ETH_IPV4 } else { ETH_IPV6 }, payload: ip }.encode()
+        }
+    }
 }
 
 const DELAYS: [i64; 11] = [0, 1_000, 20_000, 300_000, 900_000, 1_500_000, 4_000_000, 9_000_000, 12_000_000, 16_000_000, 31_000_000];
@@ -935,7 +1014,14 @@ fn case(src: &mut Src, ctx: &mut Ctx) -> Result<(), Fail> {
     // ---- configuration
     let seed = src.u64();
     let fam = src.weighted(&[8, 1, 1]); // both / v4 only / v6 only
-    let mut node = Node::new(Hw::Ip, 1500, seed, false, us(0));
+    let eth: Option<[u8; 6]> = if src.chance(1, 4) { Some([0x02, 0, 0, 0, 0, 1]) } else { None };
+    let link_mood = if eth.is_some() { src.weighted(&[6, 1, 2]) } else { 0 };
+    let mut node = Node::new(if let Some(m) = eth { Hw::Eth(m) } else { Hw::Ip }, 1500, seed, false, us(0));
+    if eth.is_some() {
+        ctx.label(["medium:ethernet", "medium:ethernet:neighbours-silent", "medium:ethernet:neighbours-late"][link_mood]);
+    } else {
+        ctx.label("medium:ip");
+    }
     let mut locals = vec![];
     if fam != 2 {
         node.add_addr(IpCidr::new(Ip::V4([10, 0, 0, 1]).to_smol(), 24));
@@ -946,6 +1032,15 @@ fn case(src: &mut Src, ctx: &mut Ctx) -> Result<(), Fail> {
         node.add_addr(IpCidr::new(Ip::v6([0xfe80, 0, 0, 0, 0, 0, 0, 1]).to_smol(), 64));
         locals.push(Ip::v6([0xfd00, 0, 0, 0, 0, 0, 0, 1]));
         locals.push(Ip::v6([0xfe80, 0, 0, 0, 0, 0, 0, 1]));
+    }
+    if eth.is_some() {
+        // off-link servers are reached through a gateway
+        if fam != 2 {
+            node.iface.routes_mut().add_default_ipv4_route(smoltcp::wire::Ipv4Address::new(10, 0, 0, 254)).expect("route");
+        }
+        if fam != 1 {
+            node.iface.routes_mut().add_default_ipv6_route(smoltcp::wire::Ipv6Address::new(0xfd00, 0, 0, 0, 0, 0, 0, 0xfe)).expect("route");
+        }
     }
     let pool = [
         Ip::V4([10, 0, 0, 53]),
@@ -1004,6 +1099,7 @@ fn case(src: &mut Src, ctx: &mut Ctx) -> Result<(), Fail> {
     }
     ctx.note(|| format!("node addresses {:?}; servers [{}]; {} queries", locals.iter().map(|l| l.to_string()).collect::<Vec<_>>(), fmt_addrs(&servers), nq));
     ctx.digest.u64(fam as u64);
+    ctx.digest.u64(eth.is_some() as u64 * 4 + link_mood as u64);
     for s in &servers {
         ctx.digest.bytes(&s.bytes());
     }
@@ -1022,6 +1118,9 @@ fn case(src: &mut Src, ctx: &mut Ctx) -> Result<(), Fail> {
         addr_counter: 0,
         near_miss: false,
         rich_answer: false,
+        eth,
+        link_mood,
+        l2_events: vec![],
     };
 
     let mut next_plan = 0usize;
@@ -1085,6 +1184,8 @@ fn case(src: &mut Src, ctx: &mut Ctx) -> Result<(), Fail> {
                         ident: None,
                         nsrv,
                         deadline_us: w.now + 20 * SEC * nsrv as i64 + SEC + slack,
+                        hard_deadline_us: w.now + (20 * SEC * nsrv.max(w.servers.len()).max(2) as i64 + SEC + slack) * plans.len() as i64,
+                        blocked_reported: false,
                         done: false,
                         tx: vec![],
                         cname_targets: vec![],
@@ -1102,10 +1203,23 @@ fn case(src: &mut Src, ctx: &mut Ctx) -> Result<(), Fail> {
         }
 
         // ---- deliver what is due
+        let mut delivered_now = started.is_some();
+        let mut i = 0;
+        while i < w.l2_events.len() {
+            if w.l2_events[i].0 <= w.now {
+                let (_, frame, what) = w.l2_events.remove(i);
+                ctx.note(|| format!("t={} deliver {}", w.now, what));
+                w.node.inject(frame);
+                delivered_now = true;
+            } else {
+                i += 1;
+            }
+        }
         let mut i = 0;
         while i < w.events.len() {
             if w.events[i].t <= w.now {
                 let ev = w.events.remove(i);
+                delivered_now = true;
                 // classify against its target while that is pending
                 if let Some(t) = ev.target {
                     let q = &w.queries[t];
@@ -1136,7 +1250,11 @@ fn case(src: &mut Src, ctx: &mut Ctx) -> Result<(), Fail> {
                                 ctx.label("cname-response-delivered-while-pending");
                                 rich_seen = true;
                             }
-                            if ev.d.has_ptr {
+                            for k in &ev.d.kinds {
+                                // header and question match: the record parser gets to these names
+                                ctx.label(&format!("pending-delivered:{}", k));
+                            }
+                            if ev.d.kinds.iter().any(|k| k.starts_with("ptr:")) {
                                 ctx.label("compressed-response-delivered-while-pending");
                                 rich_seen = true;
                             }
@@ -1149,7 +1267,7 @@ fn case(src: &mut Src, ctx: &mut Ctx) -> Result<(), Fail> {
                 }
                 ctx.note(|| format!("t={} deliver {}:{} -> {}:{} for #{:?}: {}", w.now, ev.d.src, ev.d.sport, ev.d.dst, ev.d.dport, ev.target, ev.d.what));
                 ctx.digest.bytes(&ev.d.payload);
-                w.node.inject(frame_of(&ev.d));
+                w.node.inject(frame_of(w.eth, &ev.d));
                 w.delivered.push((w.polls, ev.d));
             } else {
                 i += 1;
@@ -1164,7 +1282,48 @@ fn case(src: &mut Src, ctx: &mut Ctx) -> Result<(), Fail> {
 
         // ---- what the stack put on the wire
         for f in frames {
+            let f = match w.eth {
+                None => f,
+                Some(mac) => {
+                    let e = decode_eth(&f).map_err(|e| Fail::new("emit:undecodable-ethernet", e))?;
+                    if e.ethertype == ETH_ARP {
+                        if let Ok(a) = decode_arp(&e.payload) {
+                            let target = Ip::V4(a.tpa);
+                            if a.op == 1 && on_link(&target) && w.link_mood != 1 {
+                                let delay = if w.link_mood == 2 { *src.pick(&[500_000i64, 1_200_000, 3_000_000]) } else { 0 };
+                                let reply = Arp { op: 2, sha: mac_of(&target), spa: a.tpa, tha: mac, tpa: a.spa };
+                                let frame = Eth { dst: mac, src: mac_of(&target), ethertype: ETH_ARP, payload: reply.encode() }.encode();
+                                w.l2_events.push((w.now + delay, frame, format!("ARP reply {} is-at {:02x?}", target, mac_of(&target))));
+                            }
+                            ctx.label("emitted:arp");
+                        }
+                        continue;
+                    }
+                    if e.ethertype != ETH_IPV4 && e.ethertype != ETH_IPV6 {
+                        ctx.label("emitted:other-ethertype");
+                        continue;
+                    }
+                    e.payload
+                }
+            };
             let ip = decode_ip(&f, true).map_err(|e| Fail::new("emit:undecodable-ip", e))?;
+            if let (Some(mac), true) = (w.eth, ip.proto() == PROTO_ICMPV6) {
+                if let Ok(ic) = decode_icmp6(ip.payload(), &ip.src(), &ip.dst()) {
+                    if ic.ty == ND_NS && ic.body.len() >= 16 {
+                        let mut t = [0u8; 16];
+                        t.copy_from_slice(&ic.body[..16]);
+                        let target = Ip::V6(t);
+                        if on_link(&target) && !w.locals.contains(&target) && w.link_mood != 1 && !ip.src().is_unspecified() {
+                            let delay = if w.link_mood == 2 { *src.pick(&[500_000i64, 1_200_000, 3_000_000]) } else { 0 };
+                            let na = nd_na(&t, 0x60, Some(&mac_of(&target))).encode6(&target, &ip.src());
+                            let pkt = IpPkt::build(target, ip.src(), PROTO_ICMPV6, 255, na).encode();
+                            let frame = Eth { dst: mac, src: mac_of(&target), ethertype: ETH_IPV6, payload: pkt }.encode();
+                            w.l2_events.push((w.now + delay, frame, format!("neighbour advertisement {} is-at {:02x?}", target, mac_of(&target))));
+                        }
+                        ctx.label("emitted:neighbour-solicitation");
+                    }
+                }
+            }
             if ip.proto() != PROTO_UDP {
                 ctx.label("emitted:non-udp");
                 continue;
@@ -1179,22 +1338,39 @@ fn case(src: &mut Src, ctx: &mut Ctx) -> Result<(), Fail> {
                 continue;
             };
             let ident = (udp.sport, m.hdr.id);
+            let wire_q = m.questions.first().and_then(|q| q.name.clone().ok().map(|n| (n, q.qtype)));
             let qi = match w.queries.iter().position(|q| q.ident == Some(ident)) {
                 Some(qi) => qi,
-                None => match started {
-                    Some(s) if w.queries[s].ident.is_none() => {
-                        w.queries[s].ident = Some(ident);
-                        s
+                None => {
+                    // first datagram of a query (on Ethernet it may come polls after start_query,
+                    // once the neighbour is known): it belongs to the one identity-less pending
+                    // query that asks this question
+                    let cands: Vec<usize> = (0..w.queries.len())
+                        .filter(|i| {
+                            let q = &w.queries[*i];
+                            q.ident.is_none() && !q.done && wire_q.as_ref().map(|(n, t)| *n == q.name && *t == q.qtype).unwrap_or(false)
+                        })
+                        .collect();
+                    match cands.len() {
+                        1 => {
+                            w.queries[cands[0]].ident = Some(ident);
+                            cands[0]
+                        }
+                        0 => {
+                            ctx.label("wire:query-of-unknown-identity");
+                            continue;
+                        }
+                        _ => {
+                            // two identical questions without identity: cannot tell them apart
+                            ctx.label("ambiguous-query-identity");
+                            ctx.inconclusive = true;
+                            return Ok(());
+                        }
                     }
-                    _ => {
-                        ctx.label("wire:query-of-unknown-identity");
-                        continue;
-                    }
-                },
+                }
             };
             let first = w.queries[qi].tx.is_empty();
             // the question on the wire
-            let wire_q = m.questions.first().and_then(|q| q.name.clone().ok().map(|n| (n, q.qtype)));
             let changed: Option<&'static str> = match &wire_q {
                 None => Some("malformed"),
                 Some((n, t)) => {
@@ -1261,7 +1437,9 @@ fn case(src: &mut Src, ctx: &mut Ctx) -> Result<(), Fail> {
                         if run.len() >= 2 {
                             let g_prev = run[0].t - run[1].t;
                             let g_now = w.now - run[0].t;
-                            if g_now + 100_000 < g_prev {
+                            // (neighbour discovery - late answers, its 1 s rate limit - stretches single
+                            // gaps: only judged on Medium::Ip where a datagram can always be sent at once)
+                            if g_now + 100_000 < g_prev && w.eth.is_none() {
                                 report(ctx, Fail::new(
                                     "retransmit-without-back-off",
                                     format!("query #{} retransmitted to {} after {} us, the previous gap was {} us", qi, ip.dst(), g_now, g_prev),
@@ -1274,12 +1452,23 @@ fn case(src: &mut Src, ctx: &mut Ctx) -> Result<(), Fail> {
                     } else {
                         ctx.label("server-failover");
                         let first_prev = q.tx.iter().find(|t| t.dst == prev.dst).unwrap().t;
-                        if w.now - first_prev < 10 * SEC {
+                        // (the 10 s run from the first attempt, which is only visible on the wire on
+                        // Medium::Ip; on Ethernet neighbour discovery may delay the first datagram)
+                        if w.now - first_prev < 10 * SEC && w.eth.is_none() {
                             report(ctx, Fail::new(
                                 "failover-before-timeout",
                                 format!("query #{} moved from {} to {} only {} us after first asking it", qi, prev.dst, ip.dst(), w.now - first_prev),
                             ))?;
                         }
+                        // evidence for C13 (poll_at ignores the per-server timeout): how long a server was kept
+                        let kept = w.now - first_prev;
+                        ctx.label(if kept <= 10 * SEC + 100_000 {
+                            "failover-after:10s"
+                        } else if kept < 15 * SEC {
+                            "failover-after:10-15s"
+                        } else {
+                            "failover-after:15s-or-more"
+                        });
                         let pi = dsts.iter().position(|d| *d == prev.dst);
                         let ni = dsts.iter().position(|d| *d == ip.dst());
                         if ni < pi {
@@ -1357,7 +1546,32 @@ fn case(src: &mut Src, ctx: &mut Ctx) -> Result<(), Fail> {
                     if w.queries[qi].ident.is_none() {
                         ctx.label("query:pending-without-datagram");
                     }
-                    if w.now > w.queries[qi].deadline_us {
+                    // dispatch() stops at the first query whose datagram cannot be handed to the
+                    // device (unresolved neighbour) and starts a query's 10 s clock only when it first
+                    // reaches it, so with a silent next hop queries time out one after the other.
+                    // That is kept apart from "never completes".
+                    let excuse = w.eth.is_some() && w.queries.len() > 1; // (silent neighbour or no route to the server)
+                    let over_soft = w.now > w.queries[qi].deadline_us;
+                    let over_hard = w.now > w.queries[qi].hard_deadline_us;
+                    if over_soft && excuse && !over_hard {
+                        if !w.queries[qi].blocked_reported {
+                            w.queries[qi].blocked_reported = true;
+                            let q = &w.queries[qi];
+                            report(ctx, Fail::new(
+                                "query-blocked-behind-other-queries",
+                                format!(
+                                    "query #{} {} started at {} us is still pending at {} us ({} servers => per-query bound {} us) with {} datagrams sent: datagrams cannot be handed to the device (silent neighbour / no route) and this query's time-out only started once the queries before it had failed",
+                                    qi,
+                                    name_to_string(&q.name),
+                                    q.start_us,
+                                    w.now,
+                                    q.nsrv,
+                                    q.deadline_us - q.start_us,
+                                    q.tx.len()
+                                ),
+                            ))?;
+                        }
+                    } else if over_soft {
                         let q = &w.queries[qi];
                         report(ctx, Fail::new(
                             "query-never-completes",
@@ -1368,7 +1582,7 @@ fn case(src: &mut Src, ctx: &mut Ctx) -> Result<(), Fail> {
                                 q.start_us,
                                 w.now,
                                 q.nsrv,
-                                q.deadline_us - q.start_us,
+                                if excuse { q.hard_deadline_us } else { q.deadline_us } - q.start_us,
                                 q.tx.len(),
                                 q.tx.last().map(|t| t.t)
                             ),
@@ -1385,6 +1599,24 @@ fn case(src: &mut Src, ctx: &mut Ctx) -> Result<(), Fail> {
                     let q = &w.queries[qi];
                     let last_rx = w.delivered.iter().any(|(p, d)| *p == this_poll && q.ident.map(|i| i.0 == d.dport).unwrap_or(false));
                     ctx.label(if last_rx { "failed:on-response" } else if q.tx.is_empty() { "failed:without-sending" } else { "failed:timeout" });
+                    // NXDOMAIN is honoured before the question is compared (statement is silent: label only)
+                    if let Some((port, txid)) = q.ident {
+                        for (p, d) in &w.delivered {
+                            if *p != this_poll || d.dport != port {
+                                continue;
+                            }
+                            if let Some(m) = decode_msg(&d.payload) {
+                                if m.hdr.id == txid && m.hdr.rcode() == 3 && m.hdr.qr() {
+                                    let v = judge(&w.servers, q, d);
+                                    if v.hard.iter().any(|h| h.starts_with("question")) {
+                                        ctx.label("failed:nxdomain-for-another-question");
+                                    } else if v.hard.is_empty() {
+                                        ctx.label("failed:nxdomain");
+                                    }
+                                }
+                            }
+                        }
+                    }
                     ctx.note(|| format!("t={} query #{} -> Failed", w.now, qi));
                 }
                 Ok(addrs) => {
@@ -1405,7 +1637,7 @@ fn case(src: &mut Src, ctx: &mut Ctx) -> Result<(), Fail> {
                 ctx.label("leftover-datagrams-delivered");
                 let evs = std::mem::take(&mut w.events);
                 for ev in evs {
-                    w.node.inject(frame_of(&ev.d));
+                    w.node.inject(frame_of(w.eth, &ev.d));
                 }
                 let now = w.now + 1;
                 let _ = watched(src, "Interface::poll", || w.node.poll(us(now), None))?;
@@ -1414,7 +1646,7 @@ fn case(src: &mut Src, ctx: &mut Ctx) -> Result<(), Fail> {
         }
         let now = w.now;
         let pa = watched(src, "Interface::poll_at", || w.node.poll_at(us(now)))?.map(|t| t.total_micros());
-        let next_ev = w.events.iter().map(|e| e.t).min();
+        let next_ev = w.events.iter().map(|e| e.t).chain(w.l2_events.iter().map(|e| e.0)).min();
         let next_start = if more_plans { Some(plans[next_plan].at) } else { None };
         if pending && pa.is_none() && next_ev.is_none() && next_start.is_none() {
             report(ctx, Fail::new(
@@ -1439,6 +1671,9 @@ fn case(src: &mut Src, ctx: &mut Ctx) -> Result<(), Fail> {
             }
         }
         if t_next <= w.now {
+            if delivered_now {
+                same_time = 0;
+            }
             same_time += 1;
             if same_time > 12 && from_pa {
                 report(ctx, Fail::new(
@@ -1475,12 +1710,13 @@ pub fn prop() -> Prop {
         parts: vec![Part { name: "resolver", case, quick: 40_000, thorough: 2_000_000 }],
         phases: vec![],
         smoltcp_panic_is_violation: true,
-        rule: "one dns::Socket on a Medium::Ip interface (IPv4 and/or IPv6 addresses), 0-3 configured servers (IPv4/IPv6, on/off subnet, duplicates, rarely unspecified), 1-3 queries (A/AAAA, 1-5 labels, `.local` => mDNS, start_query / trailing dot / start_query_raw) started at drawn instants; a scripted resolver sees every query datagram (independent IP/UDP/DNS decoders) and answers with 0-2 datagrams after a drawn delay (0..31 s), each a correct response with 0-2 (mostly exactly one) attributes drawn wrong: source address (other configured server / stranger), source port (5353/other), destination port, transaction id, question name (other name - preferably a CNAME target used before -, case, shortened, extended, root, pointer-encoded), question type/class/count, QR, opcode, rcode, TC, answer count, truncation at any byte, garbage; answer section = direct addresses / CNAME chain 1-3 in or out of order ending in the right or wrong record type / unrelated names / empty, plus noise records (unrelated owner, unrelated CNAME, other type, wrong class, bad RDLENGTH, other family), names written plain, compressed, with chained, forward, self, looping and out-of-range pointers, reserved label types or no terminator; plus unsolicited datagrams. Time moves only to Interface::poll_at (optionally a little late), datagram arrival or query start. Non-trivial = a near-miss (exactly one statement attribute wrong, otherwise a usable answer) or a header-matching response with a CNAME chain or compression pointers was delivered while its query was pending; distinct by digest of configuration, queries and delivered payloads",
+        rule: "one dns::Socket on a Medium::Ip interface (3/4) or a Medium::Ethernet interface with default routes and scripted neighbours that answer ARP/NS at once, late or never (1/4); IPv4 and/or IPv6 addresses; 0-3 configured servers (IPv4/IPv6, on/off subnet, duplicates, rarely unspecified); 1-3 queries (A/AAAA, 1-5 labels, `.local` => mDNS, start_query / trailing dot / start_query_raw with either mDNS flag) started at drawn instants; a scripted resolver sees every query datagram (independent Ethernet/IP/UDP/DNS decoders) and answers with 0-2 datagrams after a drawn delay (0..31 s), each a correct response with 0-2 (mostly exactly one) attributes drawn wrong: source address (other configured server / stranger), source port (5353/other), destination port, transaction id, question name (other name - preferably a CNAME target used before, with answers for the query's or for that other name -, case, shortened, extended, root, pointer-encoded), question type/class/count, QR, opcode, rcode, TC, answer count, truncation at any byte, garbage; answer section = direct addresses / CNAME chain 1-3 in or out of order ending in the right or wrong record type / unrelated names / empty, plus noise records (unrelated owner, unrelated CNAME, other type, wrong class, bad RDLENGTH, other family), names written plain, compressed, with chained, forward, self, looping and out-of-range pointers, reserved label types or no terminator; plus unsolicited datagrams. Time moves only to Interface::poll_at (optionally a little late), datagram arrival or query start. Non-trivial = a near-miss (exactly one statement attribute wrong, otherwise a usable answer) or a header-and-question-matching response with a CNAME chain or compression pointers was delivered while its query was pending; distinct by digest of configuration, queries and delivered payloads",
         assumptions: vec![
             "independent IPv4/IPv6/UDP codec in vkit::indep and the RFC 1035 codec in vcheck/src/c19_dns.rs",
             "a query's source port and transaction id are those of the first datagram the stack emits after start_query (one query is started per poll)",
             "statement read permissively: any source address is fine from port 5353 (also for unicast queries), name comparison may be case-insensitive, QR/opcode/rcode/TC/class/question-count are not matching attributes, addresses may come from any A/AAAA record whose owner is reachable from the queried name over CNAME records of the answer section in any order",
-            "termination bound 20 s x servers + 1 s (+1 s when polls are drawn late); mDNS queries count the two multicast groups as servers",
+            "termination bound 20 s x servers + 1 s per query (+1 s when polls are drawn late); mDNS queries count the two multicast groups as servers; on Ethernet with several queries a query that exceeds it but stays within (bound x number of queries) is reported under query-blocked-behind-other-queries instead of query-never-completes",
+            "back-off and fail-over timing are judged on Medium::Ip with distinct servers only (neighbour discovery delays datagrams on Ethernet)",
             "a loop inside smoltcp is detected by a wall-clock watchdog thread (5 s) that writes the tape and exits with the violation code",
         ],
     }
